@@ -25,7 +25,7 @@ canary C04 "PCS overlap min -> max" alignment.py 's/overlap_ends = np.minimum(re
 canary C11 "majmin vocabulary slice [:8] -> [:7]" chord.py '0,/is_maj = np.all(np.equal(ref_semitones\[:, :8\], maj_semitones), axis=1)/s//is_maj = np.all(np.equal(ref_semitones[:, :7], maj_semitones[:7]), axis=1)/'
 canary C13 "interpolate_intervals ends side right->left" util.py 's/ends = np.searchsorted(time_points, intervals\[:, 1\], side="right")/ends = np.searchsorted(time_points, intervals[:, 1], side="left")/'
 canary C18 "compute_err_score e_sub min -> max" multipitch.py 's/e_sub = (np.min(\[n_ref, n_est\], axis=0) - true_positives).sum() \/ n_ref_sum/e_sub = (np.max([n_ref, n_est], axis=0) - true_positives).sum() \/ n_ref_sum/'
-canary C15 "beat.p_score-style in-place offset in onset" onset.py 's/    validate(reference_onsets, estimated_onsets)/    validate(reference_onsets, estimated_onsets)\n    if estimated_onsets.size: estimated_onsets -= 0.0 * estimated_onsets[0]; reference_onsets += (estimated_onsets[:1] > 1e9).sum()/'
+canary C15 "alignment.absolute_error computes the difference in place" alignment.py '0,/    deviations = np.abs(reference_timestamps - estimated_timestamps)/s//    reference_timestamps -= estimated_timestamps\n    deviations = np.abs(reference_timestamps)/'
 canary C01 "util.f_measure without the 0\/0 guard" util.py 's/    if precision == 0 and recall == 0:/    if False:/'
 canary C14 "validate_events sortedness check dropped" util.py 's/    if (np.diff(events) < 0).any():/    if False:/'
 canary C09 "pitch_class_to_semitone without % 12" chord.py 's/    return semitone % 12$/    return semitone/'
